@@ -421,12 +421,27 @@ def rule_exit_registry(eng, rep):
             for side in (a.lhs, a.rhs):
                 if isinstance(side, ast.Name) and side.id in consts:
                     stems.add(side.id)
+    # ... or a table look-up: a dict (literal in place or a module-level constant) keyed by the EXIT_* names, used with [] / .get()
+    def module_value(e):
+        if isinstance(e, ast.Name) and e.id in ctrl.globals:
+            return ctrl.globals[e.id]
+        return e
+    for node in eng.prog.own_nodes(msg):
+        tab = None
+        if isinstance(node, ast.Call) and isinstance(node.func, ast.Attribute) and node.func.attr == "get":
+            tab = module_value(node.func.value)
+        elif isinstance(node, ast.Subscript):
+            tab = module_value(node.value)
+        if isinstance(tab, ast.Dict):
+            for k in tab.keys:
+                if isinstance(k, ast.Name) and k.id in consts:
+                    stems.add(k.id)
     # restart classification
     rst = eng.fn("controller.ExitInformation.able_to_do_restart")
     classified = set()
     for node in eng.prog.own_nodes(rst):
-        if isinstance(node, ast.Compare) and len(node.ops) == 1 and isinstance(node.ops[0], ast.In) and isinstance(node.comparators[0], (ast.List, ast.Tuple, ast.Set)):
-            for e in node.comparators[0].elts:
+        if isinstance(node, ast.Compare) and len(node.ops) == 1 and isinstance(node.ops[0], ast.In) and isinstance(module_value(node.comparators[0]), (ast.List, ast.Tuple, ast.Set)):
+            for e in module_value(node.comparators[0]).elts:
                 if isinstance(e, ast.Name):
                     classified.add(e.id)
     # constructed flags
@@ -872,10 +887,9 @@ def rule_coordinate_precondition_established(eng, rep, rule="C07-13.precondition
     from .common import arg_of, assigned_names
     KEY = "init.random_initial_directions"
     ic = eng.fn("controller.Controller.initialise_coordinate_directions")
-    bound = None
-    for node in eng.prog.own_nodes(ic):
-        if isinstance(node, ast.Assert) and isinstance(node.test, ast.Compare) and len(node.test.ops) == 1 and isinstance(node.test.ops[0], (ast.LtE, ast.Lt)) and "num_pts" in ekey(node.test.left):
-            bound = node.test.comparators[0]
+    from .common import coordinate_precondition
+    pre = coordinate_precondition(eng)
+    bound = pre.comparators[0] if pre is not None else None
     if bound is None:
         rep.unknown(rule, eng.where(ic), "the asserted precondition `num_pts <= ...` of the coordinate initialiser was not found")
         return
